@@ -51,24 +51,24 @@ type Row struct {
 }
 
 type Result struct {
-	ID           int    `json:"id"`
-	Mode         string `json:"mode"` // inproc | binary
-	Served       bool   `json:"served"`
-	Returned     bool   `json:"returned"`      // Run returned / the process exited on its own, before being stopped
-	RC           int    `json:"rc"`            // return / exit code when Returned
-	StopRC       int    `json:"stop_rc"`       // return / exit code after the driver stopped a serving proxy
-	ListenerLeft bool   `json:"listener_left"` // something still accepts on --bind after Run returned
-	Startup      int    `json:"startup"`       // version of the first STARTUP seen by the backend (0 = none)
-	Accepted     []int  `json:"accepted"`
-	Rejected     []int  `json:"rejected"`
-	CL           []int  `json:"cl"` // cl[code] = consistency seen by the backend for a write sent with code (-1 = not seen)
-	BackendConns int    `json:"backend_conns"`
-	Panic        string `json:"panic,omitempty"`
-	Attempts     int    `json:"attempts"`
-	Infra        string `json:"infra,omitempty"` // harness problem: the row is not a verdict
-	Bind         string `json:"bind"`
+	ID           int      `json:"id"`
+	Mode         string   `json:"mode"` // inproc | binary
+	Served       bool     `json:"served"`
+	Returned     bool     `json:"returned"`      // Run returned / the process exited on its own, before being stopped
+	RC           int      `json:"rc"`            // return / exit code when Returned
+	StopRC       int      `json:"stop_rc"`       // return / exit code after the driver stopped a serving proxy
+	ListenerLeft bool     `json:"listener_left"` // something still accepts on --bind after Run returned
+	Startup      int      `json:"startup"`       // version of the first STARTUP seen by the backend (0 = none)
+	Accepted     []int    `json:"accepted"`
+	Rejected     []int    `json:"rejected"`
+	CL           []int    `json:"cl"` // cl[code] = consistency seen by the backend for a write sent with code (-1 = not seen)
+	BackendConns int      `json:"backend_conns"`
+	Panic        string   `json:"panic,omitempty"`
+	Attempts     int      `json:"attempts"`
+	Infra        string   `json:"infra,omitempty"` // harness problem: the row is not a verdict
+	Bind         string   `json:"bind"`
 	Args         []string `json:"args"`
-	Stderr       string `json:"stderr,omitempty"`
+	Stderr       string   `json:"stderr,omitempty"`
 }
 
 var probeVersions = []primitive.ProtocolVersion{primitive.ProtocolVersion3, primitive.ProtocolVersion4,
